@@ -505,8 +505,8 @@ def run(ctx: common.Ctx) -> None:
     quick = ctx.tier == "quick"
     scale = float(os.environ.get("VERIF_SCALE", "1"))
     if quick:
-        n_core: int | None = max(3, int(500 * scale))
-        n_ext, n_cli, core_max = max(3, int(700 * scale)), max(1, int(30 * scale)), 3
+        n_core: int | None = max(3, int(420 * scale))
+        n_ext, n_cli, core_max = max(3, int(580 * scale)), max(1, int(24 * scale)), 3
     else:
         n_core = None if scale >= 1 else max(3, int(18000 * scale))
         n_ext, n_cli, core_max = max(3, int(9000 * scale)), max(1, int(300 * scale)), 3
